@@ -187,6 +187,18 @@ def hEval (toks : List String) : Option String := do
     | none => "bad-slot"
   pure ("|".intercalate outs)
 
+def hCore (toks : List String) : Option String := do
+  let p ← getPar toks
+  let a ← (kv? toks "a") >>= parseVec?
+  let acc ← getCt toks "acc" p.qsQ
+  let gk ← (kv? toks "gk") >>= parseVec?
+  let nb ← (kv? toks "nb") >>= parseNat?
+  let gks ← (List.range gk.length).mapM fun i => do
+    let k ← getKeyList toks p.qsQP i
+    pure (gk.getD i 0, k)
+  let brk ← (List.range nb).mapM fun j => getRGSW toks ("b" ++ toString j ++ "_") p.qsQP
+  pure (if maskOk a then showCt (coreR p gks brk a acc) else "panic")
+
 def hEpLazy (toks : List String) : Option String := do
   let p ← (kv? toks "p") >>= parseNat?
   let mrc ← (kv? toks "mrc") >>= parseNat?
@@ -217,6 +229,7 @@ def handle (toks : List String) : String :=
     | "br_sched" :: rest => hSched rest
     | "testpoly" :: rest => hTestPoly rest
     | "br_eval" :: rest => hEval rest
+    | "br_core" :: rest => hCore rest
     | _ => none
   r.getD badOp
 
